@@ -4,7 +4,7 @@
 def gen_script(rng, faults=False, fixed=None, nops=None, shrink=True):
     bs = rng.choice([64, 100, 256, 256, 1024, 4096])
     src = 'fixed' if (fixed if fixed is not None else rng.random() < 0.2) else 'grow'
-    lines = ['stack %d %s' % (bs, src)]
+    lines = ['stack %d %s%s' % (bs, src, rng.choice(['', '', ' down']))]     # down: the upstream hands out falling addresses
     nops = nops or rng.randint(15, 90)
     depth = 0          # markers currently valid (nested)
     recorded = []      # requests since marker 0 that are still in effect, for replay equality
